@@ -23,6 +23,9 @@ def run(chk):
     r16e(chk)
     r16f(chk)
     r16g(chk)
+    from .c16b import r16h
+
+    r16h(chk, thorough=chk.tier == 'thorough')
 
 
 def eval_append(chk, typ, val, context, prefix, namespaces=None):
